@@ -92,6 +92,10 @@ func init() {
 			{Name: "signature checked over the origin only (id and timestamp unsigned)", ExpectRule: "C28.R3", ExpectKey: "arguments", Edits: []Edit{
 				{File: fl, Old: "\tif !crypto.Verify(*f.signingPubKey, cmd.SignableBytes(), cmd.Signature) {\n\t\treturn fmt.Errorf(\"signature verification failed\")\n\t}\n\n\treturn nil\n}\n\n// FloodSleepCommand", New: "\tif !crypto.Verify(*f.signingPubKey, cmd.OriginAgent[:], cmd.Signature) {\n\t\treturn fmt.Errorf(\"signature verification failed\")\n\t}\n\n\treturn nil\n}\n\n// FloodSleepCommand"},
 			}},
+			{Name: "rewrite: FloodConfig produced by a builder function with an early return when no key is configured", Edits: []Edit{
+				{File: ag, Old: "\tfloodCfg := flood.DefaultFloodConfig()\n\tfloodCfg.LocalDisplayName = a.cfg.Agent.DisplayName\n\tfloodCfg.Logger = a.logger\n\tfloodCfg.SealedBox = a.sealedBox // Pass sealed box for encryption\n\tfloodCfg.MaxHops = a.cfg.Routing.MaxHops\n\n\t// Configure command signing verification if signing public key is set\n\tif a.cfg.HasSigningKey() {\n\t\tsigningPubKey, err := a.cfg.GetSigningPublicKey()\n\t\tif err != nil {\n\t\t\treturn fmt.Errorf(\"get signing public key: %w\", err)\n\t\t}\n\t\tfloodCfg.SigningPublicKey = &signingPubKey\n\t\ta.logger.Info(\"command signing verification enabled\")\n\t}\n", New: "\tfloodCfg, err := a.c28BuildFloodConfig()\n\tif err != nil {\n\t\treturn err\n\t}\n"},
+				{File: ag, Old: "// buildSOCKS5Auth builds SOCKS5 authenticators from config.\n", New: "func (a *Agent) c28BuildFloodConfig() (flood.FloodConfig, error) {\n\tfc := flood.DefaultFloodConfig()\n\tfc.LocalDisplayName = a.cfg.Agent.DisplayName\n\tfc.Logger = a.logger\n\tfc.SealedBox = a.sealedBox\n\tfc.MaxHops = a.cfg.Routing.MaxHops\n\tif !a.cfg.HasSigningKey() {\n\t\treturn fc, nil\n\t}\n\tverifyKey, err := a.cfg.GetSigningPublicKey()\n\tif err != nil {\n\t\treturn flood.FloodConfig{}, fmt.Errorf(\"get signing public key: %w\", err)\n\t}\n\tfc.SigningPublicKey = &verifyKey\n\ta.logger.Info(\"command signing verification enabled\")\n\treturn fc, nil\n}\n\n// buildSOCKS5Auth builds SOCKS5 authenticators from config.\n"},
+			}},
 			{Name: "rewrite: window test respelled with Abs and swapped operands", Edits: []Edit{
 				{File: fl, Old: "\tif timeDiff < 0 {\n\t\ttimeDiff = -timeDiff\n\t}\n\tif timeDiff > f.timestampWindow {\n\t\treturn fmt.Errorf(\"timestamp outside validity window (%v old, max %v)\", timeDiff, f.timestampWindow)\n\t}\n\n\t// Verify Ed25519 signature\n\tif !crypto.Verify(*f.signingPubKey, cmd.SignableBytes(), cmd.Signature) {\n\t\treturn fmt.Errorf(\"signature verification failed\")\n\t}\n\n\treturn nil\n}\n\n// verifyWakeCommand", New: "\ttimeDiff = timeDiff.Abs()\n\tif !(f.timestampWindow >= timeDiff) {\n\t\treturn fmt.Errorf(\"timestamp outside validity window (%v old, max %v)\", timeDiff, f.timestampWindow)\n\t}\n\n\t// Verify Ed25519 signature\n\tif ok := crypto.Verify(*f.signingPubKey, cmd.SignableBytes(), cmd.Signature); !ok {\n\t\treturn fmt.Errorf(\"signature verification failed\")\n\t}\n\n\treturn nil\n}\n\n// verifyWakeCommand"},
 			}},
@@ -116,17 +120,18 @@ func init() {
 // ---------------------------------------------------------------------------------------
 
 type c28Ctx struct {
-	p        *kit.Program
-	flooder  *types.Named
-	verifyFn []*ssa.Function               // flood functions that call crypto.Verify
-	isVerify map[*ssa.Function]bool        // those, plus wrappers returning a verifier's result
-	reachV   map[*ssa.Function]bool        // flood functions from which crypto.Verify is statically reachable
-	cvCalls  map[*ssa.Function][]*ssa.Call // their crypto.Verify call(s)
-	keySyms  map[string]bool               // symbolic addresses holding the configured public key
-	winSyms  map[string]bool               // symbolic addresses holding the timestamp window
-	keyField []*types.Var                  // Flooder fields of type *[32]byte
-	vpMemo   map[*ssa.Function]int         // verifying-predicate memo: 0 unknown, 1 yes, 2 no, 3 in progress
-	handlers []*ssa.Function               // Flooder.HandleSleepCommand / HandleWakeCommand
+	p         *kit.Program
+	flooder   *types.Named
+	verifyFn  []*ssa.Function               // flood functions that call crypto.Verify
+	isVerify  map[*ssa.Function]bool        // those, plus wrappers returning a verifier's result
+	reachV    map[*ssa.Function]bool        // flood functions from which crypto.Verify is statically reachable
+	machinery map[*ssa.Function]bool        // reachV, functions touching a command cache / pending command, and helpers called from them
+	cvCalls   map[*ssa.Function][]*ssa.Call // their crypto.Verify call(s)
+	keySyms   map[string]bool               // symbolic addresses holding the configured public key
+	winSyms   map[string]bool               // symbolic addresses holding the timestamp window
+	keyField  []*types.Var                  // Flooder fields of type *[32]byte
+	vpMemo    map[*ssa.Function]int         // verifying-predicate memo: 0 unknown, 1 yes, 2 no, 3 in progress
+	handlers  []*ssa.Function               // Flooder.HandleSleepCommand / HandleWakeCommand
 }
 
 const c28Flood = "internal/flood"
@@ -219,6 +224,24 @@ func c28NewCtx(p *kit.Program, r *kit.Report) *c28Ctx {
 	}
 	if len(r.Floors) > 0 {
 		return nil
+	}
+	cx.machinery = map[*ssa.Function]bool{}
+	for fn := range cx.reachV {
+		cx.machinery[fn] = true
+	}
+	for _, f := range kit.StructFields(cx.flooder) {
+		isCmdState := c28IsCmdPtr(f.Type()) != ""
+		if m, ok := f.Type().Underlying().(*types.Map); ok {
+			if n, ok := m.Key().(*types.Named); ok && n.Obj().Name() == "SleepCommandKey" {
+				isCmdState = true
+			}
+		}
+		if !isCmdState {
+			continue
+		}
+		for _, acc := range p.FieldAccesses(f) {
+			cx.machinery[kit.TopLevel(acc.Fn)] = true
+		}
 	}
 	cx.semanticVerifiers()
 	return cx
@@ -951,7 +974,10 @@ func c28R1R2(cx *c28Ctx, r *kit.Report) {
 		}
 	}
 	if trunc {
-		r.Floor("checker: abstract evaluation from the wire roots exceeded its step budget")
+		// degrade: an exhausted budget decides nothing; every site is then judged by the
+		// path-insensitive dominance rule instead
+		r.Note("C28: abstract evaluation from the wire roots exceeded its step budget; sites decided by the dominance rule")
+		good = map[ssa.Instruction]bool{}
 	}
 	nSemantic := 0
 	for _, st := range sites {
@@ -1230,7 +1256,14 @@ func (cx *c28Ctx) pxFlood(sc c28Scenario, obs *c28Obs, extra func(*ssa.Function)
 			return nil, false
 		},
 		Descend: func(c ssa.CallInstruction, callee *ssa.Function) bool {
-			if cx.reachV[callee] || cx.smallHelper(callee) {
+			if cx.reachV[callee] {
+				return true
+			}
+			// small helpers only where their value can matter: inside the verification /
+			// recording machinery (callers that reach crypto.Verify, touch the seen cache, or
+			// are such helpers themselves) — not in unrelated handlers that merely share the package
+			if cx.smallHelper(callee) && (cx.machinery[c.Parent()] || cx.machinery[kit.TopLevel(c.Parent())]) {
+				cx.machinery[callee] = true
 				return true
 			}
 			return extra != nil && extra(callee)
@@ -1539,9 +1572,80 @@ func c28R5(cx *c28Ctx, r *kit.Report) {
 			}
 			stores = append(stores, st)
 		})
+		// target of the must-pass-through check: the NewFlooder call, or — when the
+		// configuration is produced by a builder function — the builder's successful returns
+		judgeFn, target := fn, ssa.Instruction(site)
+		if len(stores) == 0 {
+			for _, src := range kit.Slice(cfgArg, kit.SliceOpts{Prog: p}) {
+				if src.Kind != kit.SrcCall {
+					continue
+				}
+				b := kit.CalleeOf(src.Call).Static
+				if b == nil || len(b.Blocks) == 0 {
+					continue
+				}
+				kit.Instrs(b, func(in ssa.Instruction) {
+					if st, ok := in.(*ssa.Store); ok {
+						if fa, ok := st.Addr.(*ssa.FieldAddr); ok && kit.FieldOfAddr(fa) == spk && !kit.IsNilConst(st.Val) {
+							stores = append(stores, st)
+							judgeFn, target = b, nil
+						}
+					}
+				})
+			}
+		}
 		if len(stores) == 0 {
 			r.Violation("C28.R5", key, pos, "the FloodConfig passed to NewFlooder never receives SigningPublicKey: the flooder runs in accept-everything mode although a signing key is configured")
 			continue
+		}
+		// reaches: the store can be followed by the target; bypass: from block `from` the target
+		// is reachable without passing the store's block
+		reaches := func(st *ssa.Store) bool {
+			if target != nil {
+				return kit.CanReach(st, target)
+			}
+			for _, ret := range kit.Returns(judgeFn) {
+				if kit.CanReach(st, ret) {
+					return true
+				}
+			}
+			return false
+		}
+		bypass := func(from *ssa.BasicBlock, st *ssa.Store) bool {
+			if from == st.Block() {
+				return false
+			}
+			reach := kit.Reach(from, nil, map[*ssa.BasicBlock]bool{st.Block(): true})
+			if target != nil {
+				return reach[target.Block()]
+			}
+			for _, ret := range kit.Returns(judgeFn) {
+				if ret.Block() == judgeFn.Recover || !reach[ret.Block()] || ret.Block() == st.Block() {
+					continue
+				}
+				if res := judgeFn.Signature.Results(); res.Len() > 0 && kit.IsErrorType(res.At(res.Len()-1).Type()) && !kit.ReturnsNilError(ret) {
+					continue // the builder fails: no Flooder is constructed from it
+				}
+				return true
+			}
+			return false
+		}
+		dominates := func(st *ssa.Store) bool {
+			if target != nil {
+				return kit.Precedes(st, target)
+			}
+			for _, ret := range kit.Returns(judgeFn) {
+				if ret.Block() == judgeFn.Recover {
+					continue
+				}
+				if res := judgeFn.Signature.Results(); res.Len() > 0 && kit.IsErrorType(res.At(res.Len()-1).Type()) && !kit.ReturnsNilError(ret) {
+					continue
+				}
+				if !kit.Precedes(st, ret) {
+					return false
+				}
+			}
+			return true
 		}
 		okAll, detail := true, ""
 		for _, st := range stores {
@@ -1566,7 +1670,7 @@ func c28R5(cx *c28Ctx, r *kit.Report) {
 				okAll, detail = false, "the value stored into SigningPublicKey does not come from the configuration's signing public key accessor"
 				break
 			}
-			if !kit.CanReach(st, site) {
+			if !reaches(st) {
 				okAll, detail = false, "SigningPublicKey is stored after the flooder has been constructed"
 				break
 			}
@@ -1574,7 +1678,7 @@ func c28R5(cx *c28Ctx, r *kit.Report) {
 			// reachable around the store (silent degradation to unsigned mode)
 			gs := kit.GuardsOf(st)
 			if len(gs) == 0 {
-				if !kit.Precedes(st, site) {
+				if !dominates(st) {
 					okAll, detail = false, "the store of SigningPublicKey does not dominate NewFlooder"
 				}
 				continue
@@ -1595,8 +1699,7 @@ func c28R5(cx *c28Ctx, r *kit.Report) {
 			if !g.Polarity {
 				taken = ifBlk.Succs[1]
 			}
-			reach := kit.Reach(taken, nil, map[*ssa.BasicBlock]bool{st.Block(): true})
-			if taken != st.Block() && reach[site.Block()] {
+			if bypass(taken, st) {
 				// site reachable from the taken edge without passing the store's block
 				okAll, detail = false, "with a signing key configured NewFlooder is reachable on a path that skips the SigningPublicKey store (e.g. a logged-and-ignored key error)"
 			}
